@@ -78,7 +78,11 @@ impl TemplateExpression {
         match *self {
             TemplateExpression::Comment => Ok(()),
             TemplateExpression::Text { ref text } if text.is_ascii() => {
-                writeln!(out, "_ructe_out_.write_all(b{text:?})?;")
+                writeln!(
+                    out,
+                    "_ructe_out_.write_all(b\"{}\")?;",
+                    text.as_bytes().escape_ascii(),
+                )
             }
             TemplateExpression::Text { ref text } => {
                 writeln!(out, "_ructe_out_.write_all({text:?}.as_bytes())?;")
